@@ -247,8 +247,8 @@ def plan_C12(res, binary, hooked, tier, seed):
     mc = run_tlc("MC_IoFaults", "MC_IoFaults.cfg", "C12_mc", workers=4, timeout=300)
     res.add_tlc(mc, "the I/O contract (ErrIffFault, PrefixAlways, CompleteOnOk, FlushOnOk, NoCallAfterFailure) against a reference write_all/flush pipeline under every fault script (k-th call fails, Ok(0), arbitrary short writes, failing flush)")
     trace = os.path.join(WORK, "trace_C12.ndjson")
-    rep = run_harness(binary, ["io", "--property", "C12", "--seed", seed, "--inputs", tq(tier, 4, 120), "--trace", trace], "C12_io")
-    res.add_harness(rep, "for every entry point (3 decoders, raw LZMA2, Stream, 5 encoder variants) and every sample input: fail each sink write (Err and Ok(0)), each flush, each source call; short-write patterns with fragmented sources", counts_as_traces=False)
+    rep = run_harness(binary, ["io", "--property", "C12", "--seed", seed, "--inputs", tq(tier, 4, 120), "--trace", trace, "--export", mc["out"]], "C12_io")
+    res.add_harness(rep, "for every entry point (3 decoders, raw LZMA2, Stream, 5 encoder variants) and every sample input: fail each sink write (Err and Ok(0)), each flush, each source call; short-write patterns with fragmented sources; every finished behaviour of MC_IoFaults replayed as a positional script of sink answers (short writes followed by a failure, Ok(0), failing flush)", counts_as_traces=False)
     ok, info = validate_trace("Trace_Io", "Trace_Io_shape.cfg", trace, "C12_trace", timeout=tq(tier, 900, 7200))
     res.add_tlc(info, "trace validation of the recorded sink/source call logs (Contract as invariant after every call)")
     text = open(info["out"], errors="replace").read()
